@@ -155,7 +155,8 @@ theorem save_step_irrelevant (c c' : Cfg) (r : Result) (h : runForever c = some 
 /-- … and it always completes: `finish` goes on to the clean-up whatever `saveStep` computes (the
     result's trace, task table and timers do not mention the storage) -/
 theorem save_step_total (c : Cfg) (r : Result) (h : runForever c = some r) (hb : c.cause.before = false) :
-    r.storage = saveStep c.blocks (consumePending (plan c)) (storage0 c.blocks) ∧
+    r.storage = saveStep c.storageFault c.blocks (consumePending (plan c))
+      (storageAtStop c.blocks (consumePending (plan c))) ∧
     (stops r.trace).Perm r.started := by
   have sp := run_spec c r h hb
   obtain ⟨h1, h2⟩ := stop_exactly_started c r h
@@ -169,6 +170,35 @@ theorem save_step_total (c : Cfg) (r : Result) (h : runForever c = some r) (hb :
   · simp at h
   · simp only [Option.some.injEq] at h
     subst h; rfl
+
+/-- whatever the persistent storage does when the simulation is being stopped – it works, its
+    `__setitem__` raises, its `pop` raises as well – the run is the same except for the storage's
+    contents: the same events (every started block stopped exactly once, see
+    `stop_exactly_started`), the same recorded error raised at the end, the same (empty) task
+    table and timers, the same end time.  (Repaired behaviour,
+    patches/C08-storage-fault-at-stop-skips-cleanup.diff: the save section of run_forever is
+    inside a `try … except Exception: log`.) -/
+theorem storage_fault_irrelevant (c : Cfg) (r : Result) (h : runForever c = some r) (f : SFault) :
+    ∃ r', runForever { c with storageFault := f } = some r' ∧ r' = { r with storage := r'.storage } := by
+  have hp : plan { c with storageFault := f } = plan c := rfl
+  unfold runForever at h ⊢
+  cases hb : c.cause.before with
+  | true =>
+    simp only [hb, if_true, Option.some.injEq] at h ⊢
+    subst h
+    exact ⟨_, rfl, rfl⟩
+  | false =>
+    simp only [hb, Bool.false_eq_true, if_false] at h ⊢
+    rw [hp]
+    unfold finish at h ⊢
+    simp only [consumePending, Bool.false_and, Bool.false_eq_true, if_false] at h ⊢
+    split at h
+    · simp at h
+    · next hperm =>
+      simp only [Option.some.injEq] at h
+      subst h
+      simp only [hperm, if_false]
+      exact ⟨_, rfl, rfl⟩
 
 /-- `stop_data_last` (OutputFunc): for a started OutputFunc block with stop_data the calls of its
     output function end with the stop_data call, and that is the only stop_data call – for every
@@ -465,17 +495,20 @@ theorem translated_lifecycle_eager_failure_escapes (c : Cfg) (s : RfState) (hs :
     TrL.runForever (rfPrimsF c .testEager) s = (s, .raise .failure) :=
   eager_failure_spec c s hs
 
-/-- audit: the write of the stop time can raise (a storage back-end); it sits after the save step
-    and BEFORE `_stop_sblocks`, outside any `try`: its exception escapes right there, the states are
-    saved and no block is stopped.  (What the code does, not what the property wants; the model has
-    no failing storage.)  Moving the write after `_stop_sblocks` breaks this theorem. -/
-theorem translated_lifecycle_stamp_failure_skips_stop (c : Cfg) (r : Result) (h : runForever c = some r)
-    (hb : c.cause.before = false) (hne : c.blocks.isEmpty = false)
-    (hok : (plan c).phase ≠ .startFailed ∧ (plan c).phase ≠ .afterStart) :
-    ∃ s', TrL.runForever (rfPrimsF c .stamp) (rfInit c) = (s', .raise .failure) ∧
-      s'.trace = (plan c).startEvs ++ (plan c).puts ∧ s'.started = r.started ∧ s'.storage = r.storage ∧
-      s'.startOk = true :=
-  stamp_failure_spec c r h hb hne hok
+/-- the save section of run_forever (repaired: inside `try … except Exception: <log>`): the main tie
+    theorem above holds for every behaviour of the storage at the stop (`c.storageFault`): a failing
+    `save_persistent_state()` ends the loop, a failing write of the stop time is logged, and in
+    every case the clean-up proceeds – the translated program's trace is the model's, which does not
+    depend on the storage (`storage_fault_irrelevant`).  Spelled out for the trace: -/
+theorem translated_lifecycle_storage_fault_does_not_skip_stop (c : Cfg) (r : Result)
+    (h : runForever c = some r) (hne : c.blocks.isEmpty = false) (f : SFault) :
+    ∃ s' e, TrL.runForever (rfPrims { c with storageFault := f }) (rfInit { c with storageFault := f }) =
+        (s', .raise e) ∧ r.error = some e ∧ s'.trace = r.trace ∧ s'.started = r.started ∧ s'.timers = r.timers := by
+  obtain ⟨r', hr', hrr⟩ := storage_fault_irrelevant c r h f
+  obtain ⟨s', e, h1, h2, _, h4, h5, _, _, h8, _, _⟩ :=
+    runForever_spec { c with storageFault := f } r' hr' hne
+  rw [hrr] at h2 h4 h5 h8
+  exact ⟨s', e, h1, h2, h4, h5, h8⟩
 
 end Edzed.TrTie
 
